@@ -74,6 +74,80 @@ def _worker(args):
     return res
 
 
+def _chunk_main(conn, chunk):
+    try:
+        for t in chunk:
+            conn.send((t[1], _worker(t)))
+    finally:
+        conn.close()
+
+
+def _schedule(tasks, jobs, cases, tier, quiet):
+    """own process scheduler: one spawned process per chunk of cases, results over a pipe;
+    a dead or overdue worker is reported as inconclusive for its unfinished cases (never as a pass)"""
+    from multiprocessing.connection import wait
+
+    ctx = mp.get_context("spawn")
+    limit = float(os.environ.get("VERIF_CASE_TIMEOUT", "900" if tier == "quick" else "5400"))
+    n = len(tasks)
+    size = max(1, min(8, -(-n // (jobs * 2))))
+    queue = [tasks[i : i + size] for i in range(0, n, size)]
+    running = {}  # conn -> [proc, chunk, done set, t_last]
+    results = []
+
+    def fail(t, why):
+        name, _fn, cfg = cases[t[1]]
+        r = {"case": name, "cfg": {k: repr(v) for k, v in cfg.items()}, "stats": {}, "records": [], "violations": [], "known_hits": [],
+             "inconclusive": [{"obligation": "*", "reason": why}], "samples": [], "wall_s": 0.0, "functions": []}
+        results.append(r)
+        if not quiet:
+            _progress(r)
+
+    while queue or running:
+        while queue and len(running) < jobs:
+            chunk = queue.pop(0)
+            parent, child = ctx.Pipe(duplex=False)
+            p = ctx.Process(target=_chunk_main, args=(child, chunk), daemon=False)
+            p.start()
+            child.close()
+            running[parent] = [p, chunk, set(), time.time()]
+        ready = wait(list(running), timeout=5.0)
+        for conn in ready:
+            p, chunk, done, _t = running[conn]
+            try:
+                idx, res = conn.recv()
+                done.add(idx)
+                running[conn][3] = time.time()
+                results.append(res)
+                if not quiet:
+                    _progress(res)
+                if len(done) == len(chunk):
+                    conn.close()
+                    p.join(5)
+                    del running[conn]
+            except (EOFError, OSError):
+                p.join(5)
+                rest = [t for t in chunk if t[1] not in done]
+                del running[conn]
+                if rest:
+                    fail(rest[0], "worker process died (exit code %s)" % p.exitcode)
+                    for t in rest[1:]:
+                        queue.append([t])
+        now = time.time()
+        for conn in list(running):
+            p, chunk, done, t_last = running[conn]
+            if now - t_last > limit:
+                p.kill()
+                p.join(5)
+                rest = [t for t in chunk if t[1] not in done]
+                del running[conn]
+                if rest:
+                    fail(rest[0], "case exceeded the wall-time limit of %.0f s" % limit)
+                    for t in rest[1:]:
+                        queue.append([t])
+    return results
+
+
 def file_sha(path):
     try:
         with open(path, "rb") as f:
@@ -107,12 +181,7 @@ def run_check(prop, tier, seed, jobs, only=None, quiet=False):
             if not quiet:
                 _progress(results[-1])
     else:
-        ctx = mp.get_context("spawn")
-        with ctx.Pool(min(jobs, len(tasks)), maxtasksperchild=6) as pool:
-            for r in pool.imap_unordered(_worker, tasks, chunksize=1):
-                results.append(r)
-                if not quiet:
-                    _progress(r)
+        results = _schedule(tasks, jobs, cases, tier, quiet)
     results.sort(key=lambda r: (r["case"], json.dumps(r["cfg"], sort_keys=True)))
     return finish(prop, mod, tier, seed, results, time.time() - t0)
 
